@@ -431,6 +431,10 @@ type LexParams struct {
 	// 1 one fixed 24-byte buffer every time; 2 the documented idiom: keep the largest slice returned
 	// so far and hand it back. Tokens are parsed (deep-copied) before the next call in every mode.
 	BufMode int
+	// AttConsume: how the attachment callback treats the data: 0 reads all of it, then ComputedCRC, then ParsedCRC;
+	// 1 reads nothing and returns; 2 reads half and returns; 3 reads all and asks for no CRC; 4 reads all and asks
+	// ParsedCRC before ComputedCRC, each twice. The lexer has to step over whatever was left.
+	AttConsume int
 	// Baton, when set, makes this lexer take turns with another one (LexPair): every Next call waits for its turn.
 	Baton   *Baton
 	BatonID int
@@ -502,8 +506,40 @@ func LexAll(r io.Reader, p LexParams, keepRaw bool) (res LexResult) {
 	if !p.NoAttCallback {
 		opts.AttachmentCallback = func(ar *mcap.AttachmentReader) error {
 			ev := &AttEvent{Attachment: wl.Attachment{LogTime: ar.LogTime, CreateTime: ar.CreateTime, Name: ar.Name, MediaType: ar.MediaType}, DataSize: ar.DataSize}
-			data, err := io.ReadAll(ar.Data())
+			var data []byte
+			var err error
+			switch p.AttConsume {
+			case 1:
+				res.Events = append(res.Events, Event{Kind: "attachment", A: ev})
+				return nil
+			case 2:
+				data = make([]byte, ar.DataSize/2)
+				_, err = io.ReadFull(ar.Data(), data)
+				ev.Data = data
+				if err != nil {
+					ev.ReadErr = err.Error()
+				}
+				res.Events = append(res.Events, Event{Kind: "attachment", A: ev})
+				return nil
+			}
+			data, err = io.ReadAll(ar.Data())
 			ev.Data = data
+			if p.AttConsume == 3 {
+				if err != nil {
+					ev.ReadErr = err.Error()
+				}
+				res.Events = append(res.Events, Event{Kind: "attachment", A: ev})
+				return nil
+			}
+			if p.AttConsume == 4 {
+				for i := 0; i < 2; i++ {
+					if c, err := ar.ParsedCRC(); err != nil {
+						ev.ParsedErr = err.Error()
+					} else {
+						ev.ParsedCRC = c
+					}
+				}
+			}
 			if err != nil {
 				if p.PropagateAttErr {
 					return err // behave like a consumer that reports its read failure
@@ -729,7 +765,7 @@ func ReadMessages(r io.Reader, withMetaCB bool, keepOrig bool, maxItems int, opt
 
 // ReadMessagesMode is ReadMessages with a choice of how the iterator is driven: 0 NextInto(nil) (a new
 // Message per item); 1 NextInto(msg) with one Message reused for the whole read, as the documentation
-// recommends; 2 the deprecated Next(buf), handing back the previous item's Data as the buffer. Items are
+// recommends; 2 the deprecated Next(buf), handing back the previous item's Data as the buffer; 3 mcap.Range. Items are
 // deep-copied before the next call in every mode.
 func ReadMessagesMode(r io.Reader, mode int, withMetaCB bool, keepOrig bool, maxItems int, opts ...mcap.ReadOpt) (res IterResult) {
 	defer func() {
@@ -755,6 +791,21 @@ func ReadMessagesMode(r io.Reader, mode int, withMetaCB bool, keepOrig bool, max
 	ScribbleTopics()
 	if err != nil {
 		res.OpenErr = err
+		return res
+	}
+	if mode == 3 {
+		// the package's own loop helper: Range calls back per message and reports the end as nil
+		err := mcap.Range(it, func(s *mcap.Schema, c *mcap.Channel, m *mcap.Message) error {
+			res.Items = append(res.Items, Triple{FromSchema(s), FromChannel(c), FromMessage(m)})
+			if maxItems > 0 && len(res.Items) > maxItems {
+				return fmt.Errorf("harness: more than %d items", maxItems)
+			}
+			return nil
+		})
+		if err == nil {
+			err = io.EOF
+		}
+		res.Err = err
 		return res
 	}
 	var reused mcap.Message
